@@ -143,6 +143,25 @@ def run_case(case):
     def v(sig, **kw):
         obs["viols"].append({"sig": sig, "detail": dict(kw, source=render(prog)[:1200], options=case.get("opts"))})
 
+    if kind == "boundary":
+        # the largest admissible line number is 32699 (32700 is the dispatcher's)
+        n = case["line"]
+        text = '%d PRINT "L%d":GOTO %d\n' % (n, n, n)
+        conv = harness.convert(text, **case.get("opts", {}))
+        obs["key"] = "boundary|%d|%s" % (n, sorted(case.get("opts", {}).items()))
+        obs["counters"]["graphs_checked"] = 1
+        if n <= 32699:
+            if not conv["ok"]:
+                v("C06/boundary/largest-line-refused", line=n, outcome=conv.get("exc"))
+            else:
+                lab, jumps, seq, perr = labels_and_markers(conv["out"])
+                if lab is None or lab.get(n) != ["L%d" % n]:
+                    v("C06/boundary/label-lost", line=n)
+        elif conv["ok"]:
+            v("C06/not-refused/line-too-large", line=n)
+        elif conv["exc"] != "LineNumberTooLargeException":
+            v("C06/wrong-refusal-class/line-too-large", got=conv["exc"])
+        return obs
     if kind == "refuse":
         what = case["what"]
         rng = random.Random(case["seed"] + 1)
@@ -264,6 +283,9 @@ def cases(tier, seed):
     n = 2500 if tier == "quick" else 200000
     for i in range(n):
         yield {"kind": "graph", "seed": seed * 48271 + i, "opts": OPTS[i % len(OPTS)], "sample": i % 700 == 0}
+    for ln in (32698, 32699, 32700, 32701, 32767, 32768, 65535, 100000):
+        for o in OPTS[:2]:
+            yield {"kind": "boundary", "line": ln, "seed": ln, "opts": o}
     whats = ["missing-target", "line-too-large", "two-on-err", "two-on-brk"]
     for i in range(n // 8):
         yield {"kind": "refuse", "what": whats[i % 4], "seed": seed * 69621 + i, "opts": OPTS[i % 2]}
